@@ -65,7 +65,11 @@ Expect == Forest
 -----------------------------------------------------------------------------
 Perms(S) == {f \in [1..Cardinality(S) -> S] : \A i, j \in 1..Cardinality(S) : i # j => f[i] # f[j]}
 
-ClassIdOptions == { [i \in 1..NC |-> i - 1], [i \in 1..NC |-> 40 - 3 * i] }
+\* "Class ID: an arbitrarily-chosen ID": dense, scattered, and ids whose four little-endian bytes are the Zstandard
+\* frame magic 28 b5 2f fd (4247762216, here as the two's-complement value) and its neighbours - every INST and PROP
+\* chunk of that class then BEGINS with the magic, which means something only when the chunk is stored compressed
+MagicIds == [i \in 1..NC |-> -47205080 - 7 * (i - 1)]
+ClassIdOptions == { [i \in 1..NC |-> i - 1], [i \in 1..NC |-> 40 - 3 * i], MagicIds }
 \* dense, reversed, scattered, and large sparse numbers (differences of a billion between neighbours)
 ReferentOptions == { [k \in 1..N |-> k - 1], [k \in 1..N |-> N - k], [k \in 1..N |-> 7 * ((k * 5) % 11) + 100],
                      [k \in 1..N |-> IF k % 2 = 0 THEN 1000000000 + k ELSE 2000000000 + 3 * k] }
@@ -117,11 +121,12 @@ WithExtras(body, x) ==
                     ELSE <<[k |-> "PROPTRUNC", class |-> body[1].class], [k |-> "PROPUNK", class |-> body[2].class]>>
          IN SubSeq(body, 1, NC) \o ins \o SubSeq(body, NC + 1, Len(body))   \* after the INST chunks of "grouped"
 
-Optional == {"none", "meta", "xtra-first", "meta+xtra-mid"}
+Optional == {"none", "meta", "xtra-first", "xtra-magic", "meta+xtra-mid"}
 WithOptional(body, o) ==
     CASE o = "none" -> body
       [] o = "meta" -> <<[k |-> "META"]>> \o body
       [] o = "xtra-first" -> <<[k |-> "XTRA"]>> \o body
+      [] o = "xtra-magic" -> <<[k |-> "XTRAMAGIC"]>> \o body     \* unknown chunk whose data begins 28 b5 2f fd
       [] o = "meta+xtra-mid" -> <<[k |-> "META"]>> \o SubSeq(body, 1, NC) \o <<[k |-> "XTRA"]>> \o SubSeq(body, NC + 1, Len(body))
 
 MethodOptions == {<<"none">>, <<"lz4">>, <<"zstd">>, <<"lz4", "none", "zstd", "zstd", "lz4">>}
@@ -153,8 +158,9 @@ Init ==
     THEN \E ids \in ClassIdOptions, refs \in ReferentOptions, co \in ClassOrders, layout \in Layouts, prnt \in PrntOptions :
             case = Case(ids, refs, co, layout, prnt, FALSE, FALSE, "none", "none", TRUE, <<"none">>, "none")
     ELSE \E narrowI \in BOOLEAN, narrowF \in BOOLEAN, extra \in Extras, opt \in Optional, service \in BOOLEAN,
-            methods \in MethodOptions, refs \in ReferentOptions, empty \in EmptyClass :
-            case = Case([i \in 1..NC |-> 40 - 3 * i], refs, [i \in 1..NC |-> NC + 1 - i], "grouped",
+            methods \in MethodOptions, refs \in ReferentOptions, empty \in EmptyClass,
+            ids \in {[i \in 1..NC |-> 40 - 3 * i], MagicIds} :
+            case = Case(ids, refs, [i \in 1..NC |-> NC + 1 - i], "grouped",
                         Post(Forest.roots), narrowI, narrowF, extra, opt, service, methods, empty)
 
 Next == UNCHANGED case
